@@ -422,20 +422,38 @@ const BAD_TEMPLATES: &[&str] = &["@(\n", "@()\n@if x {", "no declaration", "@()\
 const DIRS: &[&str] = &["sub", "admin", "a", "b2", "deep_dir", "x"];
 const STEMS: &[&str] = &["page", "index", "base", "item", "t1", "footer", "err"];
 const EXTS: &[&str] = &["html", "svg", "xml"];
+const STEMS_ODD: &[&str] = &["my-page", "my_page", "404", "n404", "a.b", "a_b", "a b", "Page", "page_", "pag\u{e9}", "r#page", "page.rs"];
 
 fn rand_tree(r: &mut Rng, depth: usize, prefix: &str, out: &mut Vec<Step>, allow_bad: bool) {
     let n = r.range(0, 4);
     for _ in 0..n {
-        let stem = *r.pick(STEMS);
+        // mostly identifier stems; sometimes stems that are not identifiers, in groups that any
+        // "identifier-making" normalisation would map to one name (each file name is its own template)
+        let stem = if r.chance(1, 7) { *r.pick(STEMS_ODD) } else { *r.pick(STEMS) };
         match r.below(10) {
             0..=5 => {
                 let ext = *r.pick(EXTS);
                 let c = if allow_bad && r.chance(1, 5) { *r.pick(BAD_TEMPLATES) } else { *r.pick(GOOD_TEMPLATES) };
                 out.push(Step::Write(format!("{prefix}{stem}.rs.{ext}"), c.as_bytes().to_vec()));
+                if let Some(i) = STEMS_ODD.iter().position(|s| *s == stem) {
+                    if r.chance(1, 2) {
+                        // its neighbour in the list (the name a normalisation would confuse it with), same
+                        // directory, same suffix, another template
+                        let twin = STEMS_ODD[i ^ 1];
+                        out.push(Step::Write(format!("{prefix}{twin}.rs.{ext}"), r.pick(GOOD_TEMPLATES).as_bytes().to_vec()));
+                    }
+                }
             }
             6 => {
-                let other = *r.pick(&["README.md", "page.html", "x.rs", "style.css", ".hidden", "t.rs.htm", "u.rs.html.bak", "rs.html"]);
-                out.push(Step::Write(format!("{prefix}{other}"), b"not a template @(".to_vec()));
+                // names that are *nearly* template names, next to a template of the same stem or alone; half of
+                // them hold a perfectly valid template (a file with another name must still produce nothing)
+                let other = match r.below(3) {
+                    0 => (*r.pick(&["README.md", "page.html", "x.rs", "style.css", ".hidden", "t.rs.htm", "u.rs.html.bak", "rs.html"])).to_string(),
+                    1 => format!("{stem}.rs.{}{}", r.pick(EXTS), r.pick(&[".orig", ".bak", "~", ".in", ".rs.html.j2", "l", ".", ".tmp.swp"])),
+                    _ => format!("{stem}{}", r.pick(&[".html", ".rs", ".rs.", ".rs.htm", ".rs.HTML", ".rs.txt", ".html.rs", ".rshtml", "_rs.html", ".rs_html", ".RS.html", ".rs.svgz", ".rs.xml.dist"])),
+                };
+                let c: &[u8] = if r.chance(1, 2) { r.pick(GOOD_TEMPLATES).as_bytes() } else { b"not a template @(" };
+                out.push(Step::Write(format!("{prefix}{other}"), c.to_vec()));
             }
             _ => {
                 if depth > 0 {
@@ -981,6 +999,10 @@ fn check_tree(
                         }
                     }
                 }
+                if !is_template(&name) {
+                    // a file with another name produces nothing: no code, no declaration, no output at all
+                    warnings.push((format!("\u{0}{}", p.display()), false));
+                }
             }
         }
     }
@@ -1022,13 +1044,83 @@ fn check_tree(
             );
         }
     }
+    // every declaration line occurs once per module file
+    for (p, c) in &clean.after {
+        if p.ends_with("/mod.rs") || p.ends_with("/templates.rs") {
+            let text = String::from_utf8_lossy(c);
+            let mut seen = BTreeSet::new();
+            for l in text.lines().map(|l| l.trim()).filter(|l| l.starts_with("mod template_") || l.starts_with("pub mod ") || l.starts_with("pub use self::template_")) {
+                if !seen.insert(l.to_string()) && l != "pub mod templates {" {
+                    fail("[\"C10\"]", "declaration-duplicated", format!("{p}: `{l}` is declared twice"));
+                }
+            }
+        }
+    }
     for (path, broken) in &warnings {
+        if let Some(other) = path.strip_prefix('\u{0}') {
+            // a non-template file: no line of the output may name it (its directory may be a prefix of
+            // other paths, so compare the whole path followed by a non-path character or the end)
+            let named = clean.stdout.iter().any(|l| {
+                l.match_indices(other).any(|(i, _)| {
+                    let rest = &l[i + other.len()..];
+                    rest.is_empty() || !rest.starts_with(|c: char| c.is_alphanumeric() || "._-~/".contains(c))
+                })
+            });
+            if named {
+                fail("[\"C10\"]", "other-file-mentioned", format!("the output names {other}, which is not a template"));
+            }
+            continue;
+        }
         let warned = clean.stdout.iter().any(|l| l.starts_with("cargo:warning=") && l.contains(path.as_str()));
         if *broken && !warned {
             fail("[\"C10\"]", "broken-template-not-reported", format!("no cargo:warning names {path}"));
         }
         if !*broken && warned {
             fail("[\"C10\"]", "valid-template-warned", format!("a cargo:warning names the valid template {path}"));
+        }
+    }
+    // C18, independent of how output files are named: what a template yields when compiled ALONE (a
+    // directory holding nothing but that file, another OUT_DIR) must be among the files of the full run
+    {
+        let full: BTreeSet<&Vec<u8>> = clean.after.iter().filter(|(p, _)| Path::new(p).file_name().map_or(false, |f| f.to_string_lossy().starts_with("template_"))).map(|(_, c)| c).collect();
+        let mut all_tpl: Vec<PathBuf> = Vec::new();
+        fn collect(d: &Path, v: &mut Vec<PathBuf>) {
+            let Ok(rd) = std::fs::read_dir(d) else { return };
+            for e in rd.flatten() {
+                let p = e.path();
+                if p.is_dir() {
+                    collect(&p, v);
+                } else if is_template(&e.file_name().to_string_lossy()) {
+                    v.push(p);
+                }
+            }
+        }
+        collect(&tdir, &mut all_tpl);
+        all_tpl.sort();
+        for (k, tp) in all_tpl.iter().enumerate().take(4) {
+            let solo_in = root.join(format!("solo{k}/in"));
+            let solo_out = root.join(format!("solo{k}/out"));
+            let _ = std::fs::create_dir_all(&solo_in);
+            let _ = std::fs::create_dir_all(&solo_out);
+            let _ = std::fs::copy(tp, solo_in.join(tp.file_name().unwrap()));
+            let ok = match ructe::Ructe::new(solo_out.clone()) {
+                Ok(mut rr) => rr.compile_templates(&solo_in).is_ok(),
+                Err(_) => false,
+            };
+            if ok {
+                stats.hit("tree.solo_runs");
+                for (sp, sc_) in snapshot(&solo_out) {
+                    let f = Path::new(&sp).file_name().unwrap().to_string_lossy().into_owned();
+                    if f.starts_with("template_") && !full.contains(&sc_) {
+                        fail(
+                            "[\"C18\"]",
+                            "alone-differs-from-among-siblings",
+                            format!("{} compiled alone gives {f} with bytes that no template_* file of the full run has", tp.display()),
+                        );
+                    }
+                }
+            }
+            let _ = std::fs::remove_dir_all(root.join(format!("solo{k}")));
         }
     }
     // C18 across scenarios
